@@ -4,13 +4,14 @@
  * and carries a unique token; a global ledger records every construction, in-place assignment and destruction.
  *
  * Op file (containers are named 0..63):
- *   new c K            K in A L T R B   (Array, List, Table, Tree of probes; B = Array of Box); A/L may be followed by the
+ *   new c K            K in A L T R B C (Array, List, Table, Tree of probes; B = Array of Box, C = List of Box); A/L may be followed by the
  *                      element type (p = small probe, g = large probe), T/R by key and value type: Ag, Tpg, Rgp, ...
  *   newv c K p...      K in A L         constructor with initial elements           (Array_New / List_New)
  *   newm c K k v ...   K in T R         constructor with initial pairs              (Table_New / Tree_New)
  *   box c p            stand-alone Box owning a fresh probe
  *   push c p | append c p | pushat c i p | pop c | popat c i | set c i p | rem c p | resize c n | sort c
- *   concat c d | assign c d | copy c d (c := copy(d)) | mset c k v | mrem c k | del c | bassign c d
+ *   concat c d | assign c d | copy c d (c := copy(d)) | mset c k v | mrem c k | del c | bassign c d | bref c p
+ *   (assign: within the sequence family, within the map family, and Array/List <- Table/Tree; bref: ref(box, new probe))
  *   read c             len / foreach / get / mem / hash / eq (deref for a Box): must not touch any element
  * After the last line every remaining container is deleted (lowest name first), then `O end live=N` is printed.
  *
@@ -33,7 +34,7 @@
  *   own-leak-at-end       live tokens after deleting every container
  *   own-crash             the child process died (ASan/UBSan/signal/timeout)
  *   own-list-pushat-leak  a refused List push_at left a constructed element behind (defect repaired by 4077d96)
- * Known-finding signatures: own-box-assign-shallow, own-list-resize-raw.
+ * Known-finding signatures: own-box-assign-shallow, own-list-resize-raw, own-array-assign-partial.
  * The whole file runs in a forked child with alarm(); the parent reports how the child ended.
  */
 #include "common.h"
@@ -170,17 +171,20 @@ static var mk_arg(ArgBuf* b, int64_t pay) { return mk_arg_t(b, pay, 0); }
 
 /* ------------------------------------------------------------------------------------------------ containers */
 #define NC 64
-enum { K_NONE = 0, K_ARR = 'A', K_LST = 'L', K_TBL = 'T', K_TRE = 'R', K_BARR = 'B', K_CELL = 'X' };
+enum { K_NONE = 0, K_ARR = 'A', K_LST = 'L', K_TBL = 'T', K_TRE = 'R', K_BARR = 'B', K_BLST = 'C', K_CELL = 'X' };
 typedef struct { int kind; int kt, vt; Vec a, b, seen; } Shadow;   /* kt/vt: element (key) / value type, 1 = Big */         /* reference: seq payloads in a (-1 = zero-filled); map keys a / values b */
 static Shadow sh[NC];
-static int is_seq(int k) { return k == K_ARR || k == K_LST || k == K_BARR; }
+static int is_seq(int k) { return k == K_ARR || k == K_LST || k == K_BARR || k == K_BLST; }
 static int is_map(int k) { return k == K_TBL || k == K_TRE; }
-static int is_boxk(int k) { return k == K_BARR || k == K_CELL; }
+static int is_boxseq(int k) { return k == K_BARR || k == K_BLST; }
+static int is_boxk(int k) { return k == K_BARR || k == K_BLST || k == K_CELL; }
+static int is_listlike(int k) { return k == K_LST || k == K_BLST; }
 
 /* walked element: code 0 = zero-filled, 1 = dead pointee, pay+2 otherwise; tok = ledger token or 0 */
-typedef struct { uint64_t tok; int64_t code; } WEl;
+typedef struct { uint64_t tok; int64_t code; int64_t pos; } WEl;   /* pos: slot index (Table) / 2*depth + red (Tree) */
 typedef struct { WEl* v; size_t n, cap; } WVec;
-static void wpush(WVec* x, uint64_t tok, int64_t code) { if (x->n == x->cap) { x->cap = x->cap ? x->cap * 2 : 64; x->v = realloc(x->v, x->cap * sizeof(WEl)); } x->v[x->n].tok = tok; x->v[x->n].code = code; x->n++; }
+static int64_t wpos;                                  /* position recorded with the elements pushed next */
+static void wpush(WVec* x, uint64_t tok, int64_t code) { if (x->n == x->cap) { x->cap = x->cap ? x->cap * 2 : 64; x->v = realloc(x->v, x->cap * sizeof(WEl)); } x->v[x->n].tok = tok; x->v[x->n].code = code; x->v[x->n].pos = wpos; x->n++; }
 
 static void walk_probe(WVec* out, var item) {
   struct Probe* p = core_of(item);
@@ -201,12 +205,13 @@ static void walk_box(WVec* out, var item) {
   }
   wpush(out, 0, 1);
 }
-static void walk_tree(struct Tree* m, var node, WVec* out, size_t* guard) {
+static void walk_tree(struct Tree* m, var node, WVec* out, size_t* guard, int64_t depth) {
   if (node == NULL || *guard == 0) return;
   (*guard)--;
-  walk_tree(m, *Tree_Left(m, node), out, guard);
+  walk_tree(m, *Tree_Left(m, node), out, guard, depth + 1);
+  wpos = 2 * depth + (Tree_Is_Red(m, node) ? 1 : 0);
   walk_probe(out, Tree_Key(m, node)); walk_probe(out, Tree_Val(m, node));
-  walk_tree(m, *Tree_Right(m, node), out, guard);
+  walk_tree(m, *Tree_Right(m, node), out, guard, depth + 1);
 }
 static int cmp_pair(const void* a, const void* b) { const WEl* x = a; const WEl* y = b; return (x->code > y->code) - (x->code < y->code); }
 
@@ -215,9 +220,9 @@ static void walk(int kind, var h, WVec* out) {
   out->n = 0;
   switch (kind) {
     case K_ARR: case K_BARR: { struct Array* a = h; for (size_t i = 0; i < a->nitems; i++) { if (kind == K_ARR) walk_probe(out, Array_Item(a, i)); else walk_box(out, Array_Item(a, i)); } break; }
-    case K_LST: { struct List* l = h; var it = l->head; size_t guard = l->nitems + 2; while (it && guard--) { walk_probe(out, it); it = *List_Next(l, it); } break; }
-    case K_TBL: { struct Table* t = h; for (size_t i = 0; i < t->nslots; i++) if (Table_Key_Hash(t, i) != 0) { walk_probe(out, Table_Key(t, i)); walk_probe(out, Table_Val(t, i)); } break; }
-    case K_TRE: { struct Tree* m = h; size_t guard = m->nitems + 2; walk_tree(m, m->root, out, &guard); break; }
+    case K_LST: case K_BLST: { struct List* l = h; var it = l->head; size_t guard = l->nitems + 2; while (it && guard--) { if (kind == K_LST) walk_probe(out, it); else walk_box(out, it); it = *List_Next(l, it); } break; }
+    case K_TBL: { struct Table* t = h; for (size_t i = 0; i < t->nslots; i++) if (Table_Key_Hash(t, i) != 0) { wpos = (int64_t)i; walk_probe(out, Table_Key(t, i)); walk_probe(out, Table_Val(t, i)); } break; }
+    case K_TRE: { struct Tree* m = h; size_t guard = m->nitems + 2; walk_tree(m, m->root, out, &guard, 0); break; }
     case K_CELL: { struct Box* b = h; if (b->val) walk_box(out, b); break; }
   }
 }
@@ -238,6 +243,34 @@ static void print_vec(FILE* f, const char* name, Vec* x) {
 }
 static void print_el(FILE* f, int64_t code) { if (code == 0) fputc('_', f); else if (code == 1) fputc('!', f); else fprintf(f, "%lld", (long long)(code - 2)); }
 
+/* The concrete layout of a map with the identities in it — the Lean driver runs the same history on the slot-array model of
+   Cello/Table.lean and the red-black model of Cello/RBTree.lean with token-valued records (Cello/OwnConc.lean) and prints the same:
+     Table:  c~<nslots><slot:key@rank/val@rank,...>     Tree:  c~<depth colour:key@rank/val@rank,...>  (in-order, left to right)
+   rank = position of the element's identity among the identities stored in this container (construction order), so a record
+   that a rehash / displacement / backward shift / rotation / predecessor copy moved only in part, dropped or doubled shows. */
+static void print_layout(int c, var h, WVec* w) {
+  size_t n = w->n;
+  int longf = n > LONG_LIST;
+  uint64_t hd = 1469598103934665603ULL;
+  if (sh[c].kind == K_TBL) { struct Table* t = h; if (longf) hd = mix(hd, (uint64_t)t->nslots); else fprintf(vout, " %d~%zu<", c, t->nslots); }
+  else if (!longf) fprintf(vout, " %d~<", c);
+  /* ranks: sort a copy of the tokens */
+  uint64_t* ts = malloc((n + 1) * sizeof(uint64_t));
+  for (size_t i = 0; i < n; i++) ts[i] = w->v[i].tok;
+  for (size_t i = 1; i < n; i++) { uint64_t x = ts[i]; size_t j = i; while (j > 0 && ts[j-1] > x) { ts[j] = ts[j-1]; j--; } ts[j] = x; }
+  for (size_t i = 0; i + 1 < n; i += 2) {
+    size_t rk[2];
+    for (int q = 0; q < 2; q++) { uint64_t x = w->v[i+q].tok; size_t lo = 0, hi = n; while (lo < hi) { size_t mid = (lo + hi) / 2; if (ts[mid] < x) lo = mid + 1; else hi = mid; } rk[q] = lo; }
+    if (longf) { hd = mix(hd, (uint64_t)w->v[i].pos); hd = mix(hd, (uint64_t)w->v[i].code); hd = mix(hd, rk[0]); hd = mix(hd, (uint64_t)w->v[i+1].code); hd = mix(hd, rk[1]); continue; }
+    if (i) fputc(',', vout);
+    if (sh[c].kind == K_TBL) fprintf(vout, "%lld:", (long long)w->v[i].pos);
+    else fprintf(vout, "%lld%c:", (long long)(w->v[i].pos / 2), (w->v[i].pos & 1) ? 'R' : 'B');
+    print_el(vout, w->v[i].code); fprintf(vout, "@%zu/", rk[0]); print_el(vout, w->v[i+1].code); fprintf(vout, "@%zu", rk[1]);
+  }
+  free(ts);
+  if (longf) fprintf(vout, " %d~#%llu", c, (unsigned long long)hd); else fputc('>', vout);
+}
+
 static WVec wk[NC];
 static uint64_t wacc[NC], ref_h[NC]; static size_t ref_n[NC]; static int ref_ok[NC];
 static uint64_t opno = 0;
@@ -250,7 +283,7 @@ static void kf(const char* sig, const char* what) {
 
 /* op context for classifying known findings */
 static int ctx_op, ctx_kind, ctx_raised; static size_t ctx_oldlen, ctx_n;
-enum { OP_OTHER = 0, OP_PUSHAT, OP_SET, OP_RESIZE, OP_COPYLIKE, OP_BASSIGN };
+enum { OP_OTHER = 0, OP_PUSHAT, OP_SET, OP_RESIZE, OP_COPYLIKE, OP_BASSIGN, OP_BREF };
 
 static void check_and_print(var* H, const char* outcome, int t1, int t2) {
   opno++;
@@ -312,8 +345,10 @@ static void check_and_print(var* H, const char* outcome, int t1, int t2) {
     if (!sh[c].kind) { fprintf(vout, " %d:-", c); continue; }
     WVec* w = &wk[c];
     if (w->n > LONG_LIST) {
+      if (is_map(sh[c].kind)) print_layout(c, H[c], w);
       fprintf(vout, " %d:%c#%zu:%llu", c, sh[c].kind, is_map(sh[c].kind) ? w->n / 2 : w->n, (unsigned long long)wacc[c]); continue;
     }
+    if (is_map(sh[c].kind)) print_layout(c, H[c], w);      /* storage order, before the pairs are sorted for the contents dump */
     if (is_map(sh[c].kind) && w->n) qsort(w->v, w->n / 2, 2 * sizeof(WEl), cmp_pair);
     fprintf(vout, " %d:%c%c", c, sh[c].kind, is_map(sh[c].kind) ? '{' : '[');
     if (is_map(sh[c].kind)) for (size_t i = 0; i + 1 < w->n; i += 2) { if (i) fputc(',', vout); print_el(vout, w->v[i].code); fputc(':', vout); print_el(vout, w->v[i+1].code); }
@@ -334,7 +369,7 @@ static void check_and_print(var* H, const char* outcome, int t1, int t2) {
     if (!oracle_on) return;
   }
   if (raw) {
-    if (ctx_op == OP_RESIZE && ctx_kind == K_LST && ctx_n > ctx_oldlen && !ctx_raised) kf("own-list-resize-raw", "List_Resize grew the list with zero-filled elements that were never constructed: len counts them, no element is live");
+    if (ctx_op == OP_RESIZE && is_listlike(ctx_kind) && ctx_n > ctx_oldlen && !ctx_raised) kf("own-list-resize-raw", "List_Resize grew the list with zero-filled elements that were never constructed: len counts them, no element is live");
     else X("sig=own-raw-element line=%zu what=%d contained element(s) were never constructed", cur_line, raw);
     if (!oracle_on) return;
   }
@@ -344,10 +379,12 @@ static void check_and_print(var* H, const char* outcome, int t1, int t2) {
   if (n_live != contained) {
     if (ctx_op == OP_PUSHAT && ctx_kind == K_LST && ctx_raised && n_live == contained + 1)
       X("sig=own-list-pushat-leak line=%zu what=a refused push_at left a constructed element that is in no container (defect repaired by 4077d96)", cur_line);
-    else if (ctx_op == OP_SET && ctx_kind == K_BARR && !ctx_raised && n_live == contained + 1)
+    else if (ctx_op == OP_SET && is_boxseq(ctx_kind) && !ctx_raised && n_live == contained + 1)
       kf("own-box-assign-shallow", "Box_Assign overwrote the pointer of a stored Box: the replaced pointee was not finalised");
     else if (ctx_op == OP_BASSIGN && n_live == contained + 1)
       kf("own-box-assign-shallow", "Box_Assign overwrote the pointer of a Box: the replaced pointee was not finalised");
+    else if (ctx_op == OP_BREF && n_live == contained + 1)
+      kf("own-box-assign-shallow", "Box_Ref overwrote the pointer of a Box: the replaced pointee was not finalised");
     else X("sig=own-live-count line=%zu what=%zu live elements but the containers hold %zu", cur_line, n_live, contained);
   }
 }
@@ -408,13 +445,14 @@ static int run_op(var* H, char** tk, int nt) {
   #define NUM(ix, var_, neg) (parse_int(tk[ix], &(var_), neg))
   if (!strcmp(op, "new")) {
     int K, kt, vt;
-    if (nt != 3 || !NUM(1, c, 0) || !parse_kind(tk[2], "ALTRB", &K, &kt, &vt) || !free_name(c)) return 0;
+    if (nt != 3 || !NUM(1, c, 0) || !parse_kind(tk[2], "ALTRBC", &K, &kt, &vt) || !free_name(c)) return 0;
     switch (K) {
       case 'A': H[c] = new(Array, ty(kt)); break;
       case 'L': H[c] = new(List, ty(kt)); break;
       case 'T': H[c] = new(Table, ty(kt), ty(vt)); break;
       case 'R': H[c] = new(Tree, ty(kt), ty(vt)); break;
       case 'B': H[c] = new(Array, Box); break;
+      case 'C': H[c] = new(List, Box); break;
     }
     sh[c].kind = K; sh[c].kt = kt; sh[c].vt = vt; check_and_print(H, "ok", (int)c, -1); return 1;
   }
@@ -448,7 +486,7 @@ static int run_op(var* H, char** tk, int nt) {
   if (!strcmp(op, "push") || !strcmp(op, "append")) {
     if (nt != 3 || !NUM(1, c, 0) || !NUM(2, p, 0) || !used_name(c) || !is_seq(sh[c].kind)) return 0;
     int app = op[0] == 'a';
-    if (sh[c].kind == K_BARR) {
+    if (is_boxseq(sh[c].kind)) {
       var pt = mk_pointee(p);
       if (app) V_TRY(exc, append(H[c], $(Box, pt))); else V_TRY(exc, push(H[c], $(Box, pt)));
       if (exc) del(pt);
@@ -459,13 +497,14 @@ static int run_op(var* H, char** tk, int nt) {
     check_and_print(H, RN(exc), (int)c, -1); return 1;
   }
   if (!strcmp(op, "pushat")) {
-    if (nt != 4 || !NUM(1, c, 0) || !NUM(2, i, 1) || !NUM(3, p, 0) || !used_name(c) || (sh[c].kind != K_ARR && sh[c].kind != K_LST)) return 0;
+    if (nt != 4 || !NUM(1, c, 0) || !NUM(2, i, 1) || !NUM(3, p, 0) || !used_name(c) || !is_seq(sh[c].kind)) return 0;
     size_t ln = sh[c].a.n; ctx_op = OP_PUSHAT; ctx_kind = sh[c].kind;
-    V_TRY(exc, push_at(H[c], mk_arg_t(&ab, p, sh[c].kt), $I(i)));
+    if (is_boxseq(sh[c].kind)) { var pt = mk_pointee(p); V_TRY(exc, push_at(H[c], $(Box, pt), $I(i))); if (exc) del(pt); }
+    else V_TRY(exc, push_at(H[c], mk_arg_t(&ab, p, sh[c].kt), $I(i)));
     /* reference: Array normalises against len+1 (the end is a valid position); List: 0 = head, otherwise the
        position of an existing element (normalised against len) */
     int64_t j; int okpos;
-    if (sh[c].kind == K_ARR) { j = i < 0 ? (int64_t)ln + 1 + i : i; okpos = j >= 0 && j <= (int64_t)ln; }
+    if (!is_listlike(sh[c].kind)) { j = i < 0 ? (int64_t)ln + 1 + i : i; okpos = j >= 0 && j <= (int64_t)ln; }
     else if (i == 0) { j = 0; okpos = 1; }
     else { j = i < 0 ? (int64_t)ln + i : i; okpos = j >= 0 && j < (int64_t)ln; }
     if (okpos) vins(&sh[c].a, (size_t)j, p);
@@ -489,7 +528,7 @@ static int run_op(var* H, char** tk, int nt) {
   if (!strcmp(op, "set")) {
     if (nt != 4 || !NUM(1, c, 0) || !NUM(2, i, 1) || !NUM(3, p, 0) || !used_name(c) || !is_seq(sh[c].kind)) return 0;
     ctx_op = OP_SET; ctx_kind = sh[c].kind;
-    if (sh[c].kind == K_BARR) { var pt = mk_pointee(p); V_TRY(exc, set(H[c], $I(i), $(Box, pt))); if (exc) del(pt); }
+    if (is_boxseq(sh[c].kind)) { var pt = mk_pointee(p); V_TRY(exc, set(H[c], $I(i), $(Box, pt))); if (exc) del(pt); }
     else V_TRY(exc, set(H[c], $I(i), mk_arg_t(&ab, p, !sh[c].kt)));   /* an argument of the other element type: the elements are convertible */
     ctx_raised = exc != NULL;
     int64_t ln = (int64_t)sh[c].a.n, j = i < 0 ? ln + i : i;
@@ -510,7 +549,7 @@ static int run_op(var* H, char** tk, int nt) {
     if (n == 0) { sh[c].a.n = sh[c].b.n = 0; }
     else if (is_seq(sh[c].kind)) {
       if ((size_t)n < sh[c].a.n) sh[c].a.n = (size_t)n;
-      else if (sh[c].kind == K_LST) while (sh[c].a.n < (size_t)n) vpush(&sh[c].a, -1);
+      else if (is_listlike(sh[c].kind)) while (sh[c].a.n < (size_t)n) vpush(&sh[c].a, -1);
     }
     check_and_print(H, RN(exc), (int)c, -1); return 1;
   }
@@ -524,7 +563,7 @@ static int run_op(var* H, char** tk, int nt) {
     if (nt != 3 || !NUM(1, c, 0) || !NUM(2, d, 0) || !used_name(c) || !used_name(d) || c == d) return 0;
     int kc = sh[c].kind, kd = sh[d].kind;
     int probe2 = (kc == K_ARR || kc == K_LST) && (kd == K_ARR || kd == K_LST);
-    if (!probe2 && !(kc == K_BARR && kd == K_BARR)) return 0;
+    if (!probe2 && !(is_boxseq(kc) && is_boxseq(kd))) return 0;
     ctx_op = OP_COPYLIKE;
     V_TRY(exc, concat(H[c], H[d]));
     for (size_t j = 0; j < sh[d].a.n; j++) vpush(&sh[c].a, sh[d].a.v[j] < 0 ? 0 : sh[d].a.v[j]);
@@ -532,14 +571,28 @@ static int run_op(var* H, char** tk, int nt) {
   }
   if (!strcmp(op, "assign")) {
     if (nt != 3 || !NUM(1, c, 0) || !NUM(2, d, 0) || !used_name(c) || !used_name(d)) return 0;
-    int kc = sh[c].kind, kd = sh[d].kind, nk;
-    if (is_seq(kc) && (kd == K_ARR || kd == K_LST)) nk = kc == K_LST ? K_LST : K_ARR;
-    else if ((kc == K_ARR || kc == K_BARR) && kd == K_BARR) nk = K_BARR;
+    int kc = sh[c].kind, kd = sh[d].kind, nk, cross = 0;
+    if (c == d) { if (kc == K_CELL) return 0; nk = kc; }
+    else if (is_seq(kc) && (kd == K_ARR || kd == K_LST)) nk = is_listlike(kc) ? K_LST : K_ARR;
+    else if (is_seq(kc) && is_boxseq(kd)) nk = is_listlike(kc) ? K_BLST : K_BARR;
     else if (is_map(kc) && is_map(kd)) nk = kc;
+    else if (is_seq(kc) && is_map(kd)) { nk = is_listlike(kc) ? K_LST : K_ARR; cross = 1; }   /* sequence <- map */
     else return 0;
     ctx_op = OP_COPYLIKE;
     V_TRY(exc, assign(H[c], H[d]));
-    if (c == d) { sh[c].a.n = sh[c].b.n = 0; }      /* the container is cleared before it is read */
+    if (c == d) { }                                  /* `if (self is obj) return;` (fix a3140e4): nothing happens */
+    else if (cross) {
+      /* Array_Assign / List_Assign cleared the destination; `get(obj, $I(0))` raises when the map is not empty */
+      size_t n = sh[d].a.n;
+      sh[c].a.n = sh[c].b.n = 0;
+      if (n > 0 && nk == K_ARR) {
+        struct Array* a = H[c];
+        if (exc != NULL && a->nitems == n) {
+          kf("own-array-assign-partial", "Array_Assign set nitems = len(obj) and allocated the records before any element exists; get(obj, $I(0)) raised: len counts records that were never constructed (record 0 zero-filled, the others uninitialised memory)");
+          for (size_t q = 0; q < n; q++) { Array_Alloc(a, q); vpush(&sh[c].a, -1); }   /* make the records walkable: zero-filled, as the model has them */
+        } else if (oracle_on) X("sig=own-contents line=%zu what=assign of a non-empty map to an Array: outcome %s, %zu records", cur_line, RN(exc), a->nitems);
+      } else if ((n > 0) != (exc != NULL) && oracle_on) X("sig=own-contents line=%zu what=assign of a map to a sequence: outcome %s disagrees with the reference", cur_line, RN(exc));
+    }
     else { vcopy(&sh[c].a, &sh[d].a); vcopy(&sh[c].b, &sh[d].b); for (size_t j = 0; j < sh[c].a.n; j++) if (sh[c].a.v[j] < 0) sh[c].a.v[j] = 0; }
     sh[c].kind = nk; sh[c].kt = sh[d].kt; sh[c].vt = sh[d].vt;   /* *_Assign takes the element types of the source */
     check_and_print(H, RN(exc), (int)c, (int)d); return 1;
@@ -584,7 +637,7 @@ static int run_op(var* H, char** tk, int nt) {
         sum += mem(h, mk_arg_t(&ab, 3, sh[c].kt)); sum += (int64_t)(hash(h) & 1); sum += eq(h, h);
         if (cnt != ln && oracle_on) X("sig=own-len line=%zu what=iteration yields %zu elements, len() is %zu", cur_line, cnt, ln);
       });
-    } else if (K == K_BARR) {
+    } else if (is_boxseq(K)) {
       V_TRY(exc, {
         size_t ln = len(h);
         foreach (it in h) { var pt = deref(it); if (pt) cnt++; }
@@ -602,6 +655,14 @@ static int run_op(var* H, char** tk, int nt) {
     } else {
       V_TRY(exc, (void)deref(h));
     }
+    check_and_print(H, RN(exc), (int)c, -1); return 1;
+  }
+  if (!strcmp(op, "bref")) {
+    if (nt != 3 || !NUM(1, c, 0) || !NUM(2, p, 0) || !used_name(c) || sh[c].kind != K_CELL) return 0;
+    ctx_op = OP_BREF;
+    var pt = mk_pointee(p);
+    V_TRY(exc, ref(H[c], pt));
+    sh[c].a.n = 0; vpush(&sh[c].a, p);
     check_and_print(H, RN(exc), (int)c, -1); return 1;
   }
   if (!strcmp(op, "bassign")) {
